@@ -445,8 +445,9 @@ def evaluate__avg(self: XPathFunction, context: ta.ContextType = None) \
                 return []
             raise self.error('FORG0006', err)
     elif all(isinstance(x, int) for x in values):
-        result = sum(cast(list[int], values)) / Decimal(len(values))
-        return int(result) if result % 1 == 0 else result
+        total = sum(cast(list[int], values))
+        quotient, remainder = divmod(total, len(values))
+        return quotient if not remainder else Decimal(total) / Decimal(len(values))
     elif all(isinstance(x, (int, Decimal)) for x in values):
         return sum(cast(list[Decimal], values)) / Decimal(len(values))
     elif all(not isinstance(x, DoubleProxy) for x in values):
